@@ -184,3 +184,8 @@ impl crate::fdl::FdlApplication for DpScanner {
         }
     }
 }
+
+#[cfg(kani)]
+mod verif {
+    include!(concat!(env!("PROFIRUST_VERIF_HARNESS"), "/dp_scan.rs"));
+}
